@@ -180,6 +180,9 @@ def roundtrip(p, viols, tag, libs=LIBS, work=None, run=True):
         want = _clean_all(p)
     except MPilotError:
         return "original-invalid"  # the original program's own arguments do not clean: nothing to preserve
+    except Exception as exc:
+        viols.append(V("C15:original:clean-raised:%s:%s" % (type(exc).__name__, _what(tag)), "cleaning the arguments of the original program raised %r" % (exc,), **tag))
+        return "original-clean-raised"
     try:
         q = Program.from_source(text, libraries=libs, working_dir=work)
     except SyntaxError as exc:
